@@ -68,7 +68,8 @@ def _runtime_fail(r):
     elif k == 'index_out_of_range':
         src = r.choice(['tp[5]', 'tp[-3]', 'l[9]', 'l[-9]', 'l[3]', 'x = l[99]', '[][0]', 's[99]', 'l[0][5]' if False else 'n[0][5]', 'map([7], v => l[v])', 'l[2.0 + 1]', '[1, 2][2]'])
     elif k == 'pop_empty':
-        src = r.choice(['pop(e)', 'e.pop()', 'e | pop', 'pop([])', 'pop(l, 99)', 'l.pop(5)', 'x = pop(e)', 'pop(l, -9)'])
+        src = r.choice(['pop(e)', 'e.pop()', 'e | pop', 'pop([])', 'pop(l, 99)', 'l.pop(5)', 'x = pop(e)', 'pop(l, -9)',
+                        'pop(e, "0")', 'l.pop("9")', 'pop(l, fz)', 'pop(e, fz)', 'pop(l, "-9")', 'pop(e, True)', 'l.pop(9.0)'])
     elif k == 'compound_index_missing':
         src = r.choice(['d["zz"] += 1', 'd["zz"] -= 1', 'd["zz"] *= 2', 'l[9] += 1', 'l[-9] /= 2', 'd["a"]["zz"] += 1', 'n[0][7] *= 2', '{}["k"] += 1'])
     elif k == 'size_cap':
@@ -149,6 +150,7 @@ def _names(with_big=False):
          'mp': types.MappingProxyType({'a': 1}), 'cm': collections.ChainMap({'a': 1}, {'b': 2}), 'ud': collections.UserDict({'a': 1}),
          'tp': (1, 2), 'hk': {1: 10, 2.5: 'x', None: 0, 'a': 1}}
     n['l30'] = list(range(30))
+    n['fz'] = 9.0
     if with_big:
         n['big'] = list(range(10000))
         n['bigd'] = {str(i): i for i in range(10000)}
